@@ -129,6 +129,8 @@ def run_l2(run):
 
 def _key(c, r):
     a = c["abs"]
+    if a.get("multi"):
+        return "multi-plural-project;%s" % sorted(r["tags"])[0].split(":")[0]
     ms = sorted("%s/%s" % (m["ty"][0], m["form"]) for m in a["members"])
     return "members=%s;baseIsKey=%s;%s" % (",".join(ms), a["baseIsKey"], sorted(r["tags"])[0].split(":")[0])
 
@@ -156,7 +158,7 @@ def check(run):
                        "parse-time selection through `$t(k, {\"count\": n})`; run-time selection by generated code is the L2 check"]
     return run.finish("every subset of plural forms, cardinal / ordinal / mixed, with and without a colliding normal key; each a 10-locale project; "
                       "non-trivial: member sets the spec merges into a plural or rejects",
-                      {"distinct_nontrivial": sum(1 for c in cases if len(c["abs"]["members"]) >= 2)})
+                      {"distinct_nontrivial": sum(1 for c in cases if c["abs"].get("multi") or len(c["abs"]["members"]) >= 2)})
 
 
 def replay(run, path):
